@@ -1301,7 +1301,13 @@ async def ensure_aw(aw: Awaitable[T], loop: Loop) -> T:
     if main_loop is loop:
         return await aw
 
-    if loop.is_running():
+    # A loop that is only running because another call to this function
+    # is temporarily running it in a thread will stop as soon as that
+    # call is done so it must be treated the same as a stopped loop.
+    with _BORROWED_LOOPS_LOCK:
+        running = loop.is_running() and id(loop) not in _BORROWED_LOOPS
+
+    if running:
         return await run_aw_threadsafe(aw, loop)
 
     if loop.is_closed():
@@ -1309,8 +1315,14 @@ async def ensure_aw(aw: Awaitable[T], loop: Loop) -> T:
 
     def _loop_thread() -> T:
         with _get_loop_lock(loop):
-            aio.set_event_loop(loop)
-            return loop.run_until_complete(aw)
+            with _BORROWED_LOOPS_LOCK:
+                _BORROWED_LOOPS.add(id(loop))
+            try:
+                aio.set_event_loop(loop)
+                return loop.run_until_complete(aw)
+            finally:
+                with _BORROWED_LOOPS_LOCK:
+                    _BORROWED_LOOPS.discard(id(loop))
 
     return await main_loop.run_in_executor(_CROSS_LOOP_POOL, _loop_thread)
 
@@ -1365,6 +1377,10 @@ def loop_in_thread(loop: Loop) -> Callable[[], None]:
 
 _LOOP_LOCKS: Dict[int, Lock] = {}
 _LOOP_LOCKS_CREATE_LOCK = Lock()
+
+# IDs of the loops temporarily being run in a thread by ensure_aw()
+_BORROWED_LOOPS: Set[int] = set()
+_BORROWED_LOOPS_LOCK = Lock()
 
 
 def _get_loop_lock(loop: aio.AbstractEventLoop) -> Lock:
